@@ -22,6 +22,7 @@ RULE = ("The real CLI cmd_send.send() and cmd_receive.receive() run end to end i
         "destination path exists; ack lost or hash differs => the sender does not report success; no fault => "
         "both succeed. A side that never finishes is counted, not a violation. Non-trivial = payload larger than "
         "one transit record, a tree with >=2 entries, or any fault. Distinct = (features, event-kind trace).")
+RULE += (" Added later: `receive -o NAME`; the sender's file grows or is overwritten after the offer was made (reference = the records the sender handed to its transit connection, i.e. what it read).")
 ASSUMPTIONS = ["simulated mailbox/TCP layers per DESIGN 2.1", "permissions and mtimes are not compared",
                "--verify, Tor and interactive code entry are outside the driver"]
 
